@@ -438,30 +438,57 @@ func crashLine(s string) string {
 
 type call struct{ kind, sql string }
 
+// personalise gives goroutine g its own spelling of an input: own comment texts, literals and
+// identifiers, so that any cross-goroutine contamination of a result is visible as a difference.
+func personalise(sql string, g int) string {
+	tag := fmt.Sprintf("g%03d", g)
+	s := strings.ReplaceAll(sql, "'x'", "'x_"+tag+"'")
+	s = strings.ReplaceAll(s, " t ", " t_"+tag+" ")
+	if !strings.Contains(s, "'unterminated") && !strings.Contains(s, "\"unterminated") {
+		s = "/* head " + tag + " */ " + s + " -- tail " + tag
+	}
+	return s
+}
+
 func stressChild() {
 	secs, _ := strconv.Atoi(os.Args[2])
 	seed, _ := strconv.ParseInt(os.Args[3], 10, 64)
-	inputs := append(append([]string{}, workload.Valid...), workload.Invalid...)
-	inputs = append(inputs, workload.Corpus(core.RepoDir, 40)...)
+	base := append(append([]string{}, workload.Valid...), workload.Invalid...)
+	base = append(base, "SELECT a FROM t LIMIT 10, 20", "SELECT a FROM t WHERE b = 'x' LIMIT 5, 6")
+	shared := workload.Corpus(core.RepoDir, 30)
+	ng := 4 * runtime.NumCPU()
 	// sequential oracle: result and metric deltas of every (kind, input) run alone
 	type alone struct {
 		res                        string
 		ops, errs, bytes, min, max int64
 	}
 	table := map[call]alone{}
+	record := func(k, in string) {
+		metrics.Reset()
+		metrics.Enable()
+		res := ops.Do(k, in)
+		st := metrics.GetStats()
+		metrics.Disable()
+		table[call{k, in}] = alone{res, st.TokenizeOperations, st.TokenizeErrors, st.TotalBytesProcessed, st.MinQuerySize, st.MaxQuerySize}
+	}
+	inputsOf := make([][]string, ng)
+	for g := 0; g < ng; g++ {
+		for _, b := range base {
+			inputsOf[g] = append(inputsOf[g], personalise(b, g))
+		}
+		inputsOf[g] = append(inputsOf[g], shared...)
+	}
 	for _, k := range ops.Kinds {
-		for _, in := range inputs {
-			metrics.Reset()
-			metrics.Enable()
-			res := ops.Do(k, in)
-			st := metrics.GetStats()
-			metrics.Disable()
-			table[call{k, in}] = alone{res, st.TokenizeOperations, st.TokenizeErrors, st.TotalBytesProcessed, st.MinQuerySize, st.MaxQuerySize}
+		for g := 0; g < ng; g++ {
+			for _, in := range inputsOf[g] {
+				if _, ok := table[call{k, in}]; !ok {
+					record(k, in)
+				}
+			}
 		}
 	}
 	metrics.Reset()
 	metrics.Enable()
-	ng := 4 * runtime.NumCPU()
 	deadline := time.Now().Add(time.Duration(secs) * time.Second)
 	var mu sync.Mutex
 	out := stressOut{Goroutines: ng, Totals: map[string]int64{}, Truth: map[string]int64{}, PerKind: map[string]int64{}}
@@ -473,15 +500,13 @@ func stressChild() {
 		go func(g int) {
 			defer wg.Done()
 			rng := rand.New(rand.NewSource(seed*1000 + int64(g)))
+			inputs := inputsOf[g]
 			var lo stressOut
 			lo.Truth = map[string]int64{}
 			lo.PerKind = map[string]int64{}
 			lmin, lmax := int64(-1), int64(0)
 			lused := map[call]bool{}
-			for i := 0; time.Now().Before(deadline) || i < 50; i++ {
-				if i >= 50 && !time.Now().Before(deadline) {
-					break
-				}
+			for i := 0; i < 50 || time.Now().Before(deadline); i++ {
 				c := call{ops.Kinds[rng.Intn(len(ops.Kinds))], inputs[rng.Intn(len(inputs))]}
 				if rng.Intn(16) == 0 {
 					_ = metrics.GetStats() // readers run concurrently with recorders
